@@ -10,8 +10,10 @@ use crate::value::{from_value, schema_key, to_value, Path, Step, Value};
 use rtcm_rs::prelude::*;
 use std::collections::BTreeMap;
 
+/// decode through one of the two public entry points (which one depends on the frame length only, so that every check
+/// sees both and a replay is deterministic)
 pub fn decode_frame(f: &[u8]) -> Option<Message> {
-    MessageFrame::new(f).ok().map(|m| m.get_message())
+    MessageFrame::new(f).ok().map(|m| if f.len() & 1 == 0 { m.get_message() } else { Message::from_message_frame(&m) })
 }
 pub fn is_typed(m: &Message) -> bool {
     !matches!(m, Message::Empty | Message::Corrupt | Message::MsgNotSupported(_))
